@@ -15,7 +15,9 @@ Record bucket := mkB { bst : Z -> Z; bsh : Z -> Z; bhp : Z -> Z; bky : Z -> Z }.
 Definition table := Z -> bucket.
 Definition tupd (t : table) (i : Z) (b : bucket) : table := fun j => if Z.eqb j i then b else t j.
 
-Definition empty_bucket : bucket := mkB (fun _ => 0) (fun _ => 128) (fun _ => 255) (fun _ => 0).
+(* BucketOpen2N2() = pvSetEmpty (GENERATED) on zeroed storage; hashProbes are not initialised by the code: 255 is a placeholder *)
+Definition empty_bucket : bucket :=
+  let '(st, sh) := Gen_O2.pvSetEmpty (fun _ => 0) (fun _ => 0) (fun _ => 255) in mkB st sh (fun _ => 255) (fun _ => 0).
 Definition empty_table : table := fun _ => empty_bucket.
 
 Definition cnt (b : bucket) : Z := Gen_O2.pvGetCount (bst b) (bsh b) (bhp b).
@@ -170,6 +172,37 @@ Definition remove_at (t : table) (b slot : Z) : outcome table :=
   | Stuck => Stuck | Fuel => Fuel | Exn => Exn
   end.
 End Reloc.
+
+(* ---- model growth round: HashSet::pvFind over the GENERATED BucketOpen2N2::Find / WasFull / GetMaxProbe / GetNextBucketIndex ----
+   bucket_find: Bucket::Find with itemPred = "the key stored in slot i equals key" (HashSet's predicate is key equality on the
+   item); the generated function returns &mItems + i + 1 (with &mItems = 0 here) or the null iterator 0 *)
+Definition bucket_find (b : bucket) (key h : Z) : outcome Z :=
+  Gen_O2.Find (bst b) (bsh b) (bhp b) (fun i => bky b i =? key) h 0.
+
+(* for (probe = 1; bucket->WasFull() && probe <= maxProbe; ++probe) { bucketIndex = GetNextBucketIndex(..); bucket = ..; Find<false> } *)
+Fixpoint find_loop (fuel : nat) (t : table) (bc idx probe maxProbe key h : Z) {struct fuel} : outcome (option (Z * Z)) :=
+  match fuel with
+  | O => Fuel
+  | S f =>
+    if Gen_O2.WasFull (bst (t idx)) (bsh (t idx)) (bhp (t idx)) && (probe <=? maxProbe) then
+      let idx' := Gen_O2.GetNextBucketIndex idx bc probe in
+      match bucket_find (t idx') key h with
+      | Ok r => if r =? 0 then find_loop f t bc idx' (wrapU 64 (probe + 1)) maxProbe key h else Ok (Some (idx', r - 1))
+      | Stuck => Stuck | Fuel => Fuel | Exn => Exn
+      end
+    else Ok None
+  end.
+
+(* pvFind(indexCode, buckets, itemPred): the start bucket, then the probe loop bounded by the START bucket's GetMaxProbe *)
+Definition find (t : table) (L key h : Z) : outcome (option (Z * Z)) :=
+  let bc := wrapU 64 (Z.shiftl 1 L) in
+  let start := Gen_Base.GetStartBucketIndex h bc in
+  match bucket_find (t start) key h with
+  | Ok r =>
+    if r =? 0 then find_loop (S (Z.to_nat bc)) t bc start 1 (Gen_O2MP.GetMaxProbe (bst (t start))) key h
+    else Ok (Some (start, r - 1))
+  | Stuck => Stuck | Fuel => Fuel | Exn => Exn
+  end.
 
 (* where is a key stored? (used by the driver to replay set.Remove(key)) *)
 Fixpoint locate_from (n : nat) (t : table) (i key : Z) : option (Z * Z) :=
